@@ -273,7 +273,15 @@ class Real:
         return out
 
     def ctx(self, walker, prog):
-        with self.jt.jaxtyped("context"):
+        # every second block re-uses ONE context object (also re-entrantly, when blocks nest): the object is stateless by contract
+        self._n_ctx = getattr(self, "_n_ctx", 0) + 1
+        if self._n_ctx % 2:
+            if getattr(self, "_shared_ctx", None) is None:
+                self._shared_ctx = self.jt.jaxtyped("context")
+            cm = self._shared_ctx
+        else:
+            cm = self.jt.jaxtyped("context")
+        with cm:
             walker.body(prog)
 
 
